@@ -743,3 +743,48 @@ def users_of_fn(F, path):
         if needle in json.dumps(b.raw.get('blocks')):
             out.add(b.root if b.kind == 'Closure' else b.path)
     return out
+
+
+def reach_bool(b, start, limit=4000):
+    """blocks reachable from `start` when booleans are followed path-sensitively: a local assigned a constant, a copy of a
+    known local or its negation has a known value, and a switch on a known value takes only its edge (what `let ok =
+    matches!(..); if !ok {..}` needs)."""
+    seen, out = set(), set()
+    work = [(start, ())]
+    while work and len(seen) < limit:
+        bb, st = work.pop()
+        if (bb, st) in seen:
+            continue
+        seen.add((bb, st))
+        out.add(bb)
+        env = dict(st)
+        for s_ in b.blocks[bb]['stmts']:
+            if s_['k'] != 'assign' or s_['place']['p']:
+                continue
+            l, rv, v = s_['place']['l'], s_['rv'], None
+            if rv['k'] == 'use' and rv['op']['k'] == 'const' and rv['op'].get('ty') == 'bool':
+                v = rv['op'].get('text') == 'true'
+            elif rv['k'] == 'use' and rv['op']['k'] in ('copy', 'move') and not rv['op']['place']['p']:
+                v = env.get(rv['op']['place']['l'])
+            elif rv['k'] == 'unop' and str(rv.get('op', '')).lower().startswith('not') and rv['a']['k'] in ('copy', 'move') and not rv['a']['place']['p']:
+                x = env.get(rv['a']['place']['l'])
+                v = (not x) if x is not None else None
+            if v is None:
+                env.pop(l, None)
+            else:
+                env[l] = v
+        t = b.blocks[bb]['term']
+        if t['k'] == 'call' and not t['dest']['p']:
+            env.pop(t['dest']['l'], None)
+        nxt = [d for d, _ in b.edges(bb, False)]
+        if t['k'] == 'switch' and t['discr']['k'] in ('copy', 'move') and not t['discr']['place']['p'] and t['discr']['place']['l'] in env:
+            v = '1' if env[t['discr']['place']['l']] else '0'
+            tg = t['otherwise']
+            for val, x in t['targets']:
+                if str(val) == v:
+                    tg = x
+            nxt = [t['folded']] if 'folded' in t else [tg]
+        st2 = tuple(sorted(env.items()))
+        for d in nxt:
+            work.append((d, st2))
+    return out
